@@ -135,6 +135,12 @@ GUARDS = [
     (['C03'], 'value_div_cells', 'src/value.cc', r'value_t&\s*value_t::operator/=\s*\(\s*const\s+value_t&\s*val\s*\)\s*\{', [
         'case INTEGER: switch (val.type()) { case INTEGER: if (val.as_long() == 0)',
         'as_balance_lval() /= val.as_amount();']),
+    (['C08'], 'subtotal_date_range', 'src/filters.cc', r'void\s+subtotal_posts::report_subtotal\s*\(', [
+        'if (! range_start || ! range_finish) {', 'foreach (post_t * post, component_posts) {',
+        'date_t date = post->date();', 'date_t value_date = post->value_date();',
+        'if (! range_start || date < *range_start) range_start = date;',
+        'if (! range_finish || value_date > *range_finish) range_finish = value_date;',
+        'xact._date = *range_start;']),
     (['C04', 'C08'], 'parse_teaches_style_and_precision', 'src/amount.cc', r'bool\s+amount_t::parse\s*\(\s*std::istream&\s*in', [
         'else if (commodity_ && ! no_migrate_style) { commodity().add_flags(comm_flags); if (new_quantity->prec > commodity().precision()) commodity().set_precision(new_quantity->prec); }']),
     (['C04'], 'format_directive_fixes', 'src/textual.cc', r'void\s+instance_t::commodity_format_directive\s*\(', [
